@@ -79,7 +79,7 @@ Lemma find_last_index_greatest p l :
   (exists i x, find_last_index p l = Z.of_nat i /\ nth_error l i = Some x /\ p x = true /\
                forall j y, (i < j)%nat -> nth_error l j = Some y -> p y = false).
 Proof.
-  unfold find_last_index.
+  unfold find_last_index. rewrite <- rev_alt.
   destruct (last_from_spec p (rev l) (Z.of_nat (length l) - 1))
     as [[H1 H2] | (j & x & H1 & H2 & H3 & H4)].
   - left; split; [exact H1|]. intros x Hx. apply H2. now apply -> in_rev.
@@ -672,4 +672,689 @@ Proof.
   unfold range_go.
   destruct args as [|a [|b [|c [|d args]]]]; try discriminate;
     repeat match goal with |- context [if ?b then _ else _] => destruct b end; discriminate.
+Qed.
+
+(* ================================================================== *)
+(* Session 3 (audit): corollaries and exact characterisations           *)
+
+(* ---------- LastIndexOf ---------- *)
+Lemma last_index_of_greatest l v :
+  (last_index_of l v = -1 /\ ~ In v l) \/
+  (exists i, last_index_of l v = Z.of_nat i /\ nth_error l i = Some v /\
+             forall j, (i < j)%nat -> nth_error l j <> Some v).
+Proof.
+  unfold last_index_of.
+  destruct (find_last_index_greatest (Z.eqb v) l) as [[H1 H2] | (i & x & H1 & H2 & H3 & H4)].
+  - left. split; [exact H1|]. intros Hin. specialize (H2 v Hin). now rewrite Z.eqb_refl in H2.
+  - right. exists i. apply Z.eqb_eq in H3. subst x. repeat split; auto.
+    intros j Hj Hn. specialize (H4 j v Hj Hn). now rewrite Z.eqb_refl in H4.
+Qed.
+
+(* ---------- FindAll is a map: positions strictly increasing, hence distinct ---------- *)
+Lemma find_all_sorted p l : StronglySorted (fun a b => fst a < fst b) (find_all p l).
+Proof. apply find_all_from_sorted. Qed.
+
+Lemma find_all_keys_nodup p l : NoDup (map fst (find_all p l)).
+Proof.
+  pose proof (find_all_sorted p l) as H. induction H as [|a m Hs IH Hf]; cbn; constructor; auto.
+  intros Hin. apply in_map_iff in Hin as (b & Hb & Hin).
+  rewrite Forall_forall in Hf. specialize (Hf b Hin). lia.
+Qed.
+
+(* ---------- first extremal element, as a decomposition ---------- *)
+Lemma find_min_by_split f l : l <> [] ->
+  exists l1 l2, l = l1 ++ find_min_by f l :: l2 /\
+    (forall x, In x l1 -> f (find_min_by f l) < f x) /\
+    (forall x, In x l2 -> f (find_min_by f l) <= f x).
+Proof.
+  intros Hne. pose proof (find_min_by_spec f l) as Hs.
+  destruct l as [|a l]; [congruence|]. destruct Hs as [_ Hle].
+  unfold find_min_by in *; cbn [hd] in *.
+  pose proof (fold_ext_first f Z.ltb ltb_irrefl ltb_trans ltb_total (a :: l) a) as H.
+  cbn zeta in H. set (r := fold_left _ (a :: l) a) in *. clearbody r.
+  destruct H as [[Hr _] | (k1 & k2 & Hk & _ & Hall)].
+  - exists [], l. subst r. repeat split; auto.
+    + intros x [].
+    + intros x Hx. apply Hle. now right.
+  - exists k1, k2. split; [exact Hk|]. split.
+    + intros x Hx. specialize (Hall x Hx). now apply Z.ltb_lt in Hall.
+    + intros x Hx. apply Hle. rewrite Hk. apply in_or_app. right. now right.
+Qed.
+
+Lemma find_max_by_split f l : l <> [] ->
+  exists l1 l2, l = l1 ++ find_max_by f l :: l2 /\
+    (forall x, In x l1 -> f x < f (find_max_by f l)) /\
+    (forall x, In x l2 -> f x <= f (find_max_by f l)).
+Proof.
+  intros Hne. pose proof (find_max_by_spec f l) as Hs.
+  destruct l as [|a l]; [congruence|]. destruct Hs as [_ Hle].
+  unfold find_max_by in *; cbn [hd] in *.
+  pose proof (fold_ext_first f Z.gtb gtb_irrefl gtb_trans gtb_total (a :: l) a) as H.
+  cbn zeta in H. set (r := fold_left _ (a :: l) a) in *. clearbody r.
+  destruct H as [[Hr _] | (k1 & k2 & Hk & _ & Hall)].
+  - exists [], l. subst r. repeat split; auto.
+    + intros x [].
+    + intros x Hx. apply Hle. now right.
+  - exists k1, k2. split; [exact Hk|]. split.
+    + intros x Hx. specialize (Hall x Hx). rewrite Z.gtb_ltb in Hall. now apply Z.ltb_lt in Hall.
+    + intros x Hx. apply Hle. rewrite Hk. apply in_or_app. right. now right.
+Qed.
+
+(* the decomposition determines the answer: two "first extremal" splits of one
+   list name the same element *)
+Lemma first_min_unique (f : Z -> Z) l1 r l2 k1 r' k2 :
+  l1 ++ r :: l2 = k1 ++ r' :: k2 ->
+  (forall x, In x l1 -> f r < f x) -> (forall x, In x l2 -> f r <= f x) ->
+  (forall x, In x k1 -> f r' < f x) -> (forall x, In x k2 -> f r' <= f x) ->
+  l1 = k1 /\ r = r' /\ l2 = k2.
+Proof.
+  revert k1. induction l1 as [|a l1 IH]; intros [|b k1] E H1 H2 H3 H4; cbn in E.
+  - injection E as -> ->. auto.
+  - injection E as Ea Ek. exfalso.
+    assert (f r' < f b) by (apply H3; now left).
+    assert (f r <= f r') by (apply H2; rewrite Ek; apply in_or_app; right; now left).
+    rewrite <- Ea in *. lia.
+  - injection E as Ea Ek. exfalso.
+    assert (f r < f a) by (apply H1; now left).
+    assert (f r' <= f r) by (apply H4; rewrite <- Ek; apply in_or_app; right; now left).
+    rewrite Ea in *. lia.
+  - injection E as -> E. destruct (IH k1 E) as (-> & -> & ->); auto.
+    + intros x Hx; apply H1; now right.
+    + intros x Hx; apply H3; now right.
+Qed.
+
+Lemma find_max_by_first f l l1 l2 :
+  l = l1 ++ find_max_by f l :: l2 -> ~ In (find_max_by f l) l1 ->
+  forall x, In x l1 -> f x < f (find_max_by f l).
+Proof.
+  intros Hsplit Hnotin x Hx.
+  assert (Hne : l <> []) by (intros ->; destruct l1; discriminate).
+  destruct (find_max_by_split f l Hne) as (k1 & k2 & Hk & Hall & _).
+  set (r := find_max_by f l) in *. clearbody r.
+  assert (Hk1 : ~ In r k1) by (intros Hin; specialize (Hall r Hin); lia).
+  assert (l1 = k1) as ->; [|auto].
+  rewrite Hk in Hsplit. clear - Hsplit Hnotin Hk1.
+  revert k1 Hsplit Hk1 Hnotin. induction l1 as [|b l1 IH]; intros [|c k1] Hs Hk1 Hn; auto.
+  - cbn in Hs. injection Hs as Hc _. exfalso. apply Hk1. left. congruence.
+  - cbn in Hs. injection Hs as Hb _. exfalso. apply Hn. left. congruence.
+  - cbn in Hs. injection Hs as -> Hs. f_equal. apply IH; auto.
+    + intros Hin; apply Hk1; now right.
+    + intros Hin; apply Hn; now right.
+Qed.
+
+(* ---------- ByKey: a map that lacks the key takes no part ---------- *)
+Definition has_key (key : Z) (m : amap) : bool :=
+  match alookup m key with Some _ => true | None => false end.
+
+Lemma find_ext_by_key_ignores_missing better ms key :
+  find_ext_by_key better ms key =
+  match ms with
+  | [] => Ok 0
+  | m0 :: _ => if has_key key m0 then find_ext_by_key better (filter (has_key key) ms) key else Err 1
+  end.
+Proof.
+  destruct ms as [|m0 ms]; [reflexivity|].
+  unfold find_ext_by_key at 1. unfold has_key at 1.
+  destruct (alookup m0 key) as [v0|] eqn:E0; [|reflexivity].
+  cbn [filter]. unfold has_key at 1. rewrite E0. unfold find_ext_by_key. rewrite E0. f_equal.
+  cbn [fold_left]. rewrite E0. generalize (if better v0 v0 then v0 else v0) as acc.
+  induction ms as [|m ms IH]; intros acc; [reflexivity|].
+  cbn [filter fold_left]. unfold has_key at 1.
+  destruct (alookup m key) as [v|] eqn:E; cbn [fold_left]; rewrite ?E; apply IH.
+Qed.
+
+(* ---------- Nth, exactly ---------- *)
+Lemma nth_go_ok_iff l n v :
+  let len := Z.of_nat (length l) in
+  nth_go l n = Ok v <->
+  (0 <= n < len /\ nth_error l (Z.to_nat n) = Some v) \/
+  (- len <= n < 0 /\ nth_error l (Z.to_nat (len + n)) = Some v).
+Proof.
+  cbn zeta. pose proof (nth_go_spec l n) as (H1 & H2 & H3). cbn zeta in *.
+  set (len := Z.of_nat (length l)) in *.
+  assert (Hnth : forall i, (i < length l)%nat -> nth_error l i = Some (nth i l 0)).
+  { intros i Hi. apply nth_error_nth'. exact Hi. }
+  split.
+  - intros H.
+    destruct (Z_lt_le_dec n (- len)) as [Ha | Ha]; [destruct H3 as (k & E); [lia | congruence]|].
+    destruct (Z_lt_le_dec n 0) as [Hb | Hb].
+    + right. split; [lia|]. rewrite H2 in H by lia. injection H as <-. apply Hnth. unfold len in *. lia.
+    + destruct (Z_lt_le_dec n len) as [Hc | Hc]; [|destruct H3 as (k & E); [lia | congruence]].
+      left. split; [lia|]. rewrite H1 in H by lia. injection H as <-. apply Hnth. unfold len in *. lia.
+  - intros [[Hr Hv] | [Hr Hv]].
+    + rewrite H1 by exact Hr. f_equal. rewrite Hnth in Hv by (unfold len in *; lia). congruence.
+    + rewrite H2 by exact Hr. f_equal. rewrite Hnth in Hv by (unfold len in *; lia). congruence.
+Qed.
+
+Lemma nth_go_err_iff l n :
+  let len := Z.of_nat (length l) in
+  (exists k, nth_go l n = Err k) <-> (n >= len \/ n < - len).
+Proof.
+  cbn zeta. pose proof (nth_go_spec l n) as (H1 & H2 & H3). cbn zeta in *.
+  set (len := Z.of_nat (length l)) in *. split; [|exact H3].
+  intros (k & E).
+  destruct (Z_lt_le_dec n (- len)) as [Ha | Ha]; [lia|].
+  destruct (Z_lt_le_dec n 0) as [Hb | Hb]; [rewrite H2 in E by lia; discriminate|].
+  destruct (Z_lt_le_dec n len) as [Hc | Hc]; [rewrite H1 in E by lia; discriminate|lia].
+Qed.
+
+(* ---------- Mean ---------- *)
+(* the integer mean is the exact mean rounded toward zero *)
+Lemma mean_trunc l : l <> [] ->
+  exists r, mean l = Ok r /\
+    let n := Z.of_nat (length l) in
+    Z.abs (r * n) <= Z.abs (sum l) /\ Z.abs (sum l - r * n) < n /\
+    (0 <= sum l -> 0 <= r) /\ (sum l <= 0 -> r <= 0).
+Proof.
+  intros Hne. exists (Z.quot (sum l) (Z.of_nat (length l))). split; [now apply mean_spec|].
+  cbn zeta. set (n := Z.of_nat (length l)). set (s := sum l).
+  assert (Hn : 0 < n) by (unfold n; destruct l; [congruence | cbn [length]; lia]).
+  pose proof (Z.quot_rem' s n) as E.
+  destruct (Z_le_gt_dec 0 s) as [Hs | Hs].
+  - pose proof (Z.rem_bound_pos s n Hs Hn) as Hr.
+    pose proof (Z.quot_pos s n Hs Hn) as Hq.
+    repeat split; try nia.
+  - assert (Hs' : 0 <= - s) by lia.
+    pose proof (Z.rem_bound_pos (- s) n Hs' Hn) as Hr.
+    pose proof (Z.quot_pos (- s) n Hs' Hn) as Hq.
+    rewrite Z.rem_opp_l' in Hr. rewrite Z.quot_opp_l in Hq by lia.
+    repeat split; try nia.
+Qed.
+
+Lemma wrap_small w z : 0 < w -> - 2 ^ (w - 1) <= z < 2 ^ (w - 1) -> wrap w z = z.
+Proof.
+  intros Hw Hz. unfold wrap.
+  assert (Hp : 0 < 2 ^ (w - 1)) by (apply Z.pow_pos_nonneg; lia).
+  assert (E : 2 ^ w = 2 * 2 ^ (w - 1)).
+  { replace w with (1 + (w - 1)) at 1 by lia. rewrite Z.pow_add_r by lia. reflexivity. }
+  rewrite Z.mod_small by lia. lia.
+Qed.
+
+(* in a w-bit type, for a slice shorter than 2^(w-1): the mean, rounded toward
+   zero, of the WRAPPED sum; never a panic; in range *)
+Lemma mean_w_spec w l : 0 < w -> l <> [] -> Z.of_nat (length l) < 2 ^ (w - 1) ->
+  mean_w w l = Ok (Z.quot (sum_w w l) (Z.of_nat (length l))) /\
+  - 2 ^ (w - 1) <= Z.quot (sum_w w l) (Z.of_nat (length l)) < 2 ^ (w - 1).
+Proof.
+  intros Hw Hne Hlen. unfold mean_w.
+  set (n := Z.of_nat (length l)) in *.
+  assert (Hn : 0 < n) by (unfold n; destruct l; [congruence | cbn [length]; lia]).
+  assert (Hp : 0 < 2 ^ (w - 1)) by (apply Z.pow_pos_nonneg; lia).
+  rewrite (wrap_small w n) by lia.
+  replace (n =? 0) with false by lia.
+  destruct (sum_w_spec w l Hw) as [_ Hr]. set (s := sum_w w l) in *.
+  assert (Hq : - 2 ^ (w - 1) <= Z.quot s n < 2 ^ (w - 1)).
+  { pose proof (Z.quot_rem' s n) as E.
+    destruct (Z_le_gt_dec 0 s) as [Hs | Hs].
+    - pose proof (Z.rem_bound_pos s n Hs Hn). pose proof (Z.quot_pos s n Hs Hn).
+      set (q := Z.quot s n) in *. assert (q <= q * n) by nia. lia.
+    - assert (Hs' : 0 <= - s) by lia.
+      pose proof (Z.rem_bound_pos (- s) n Hs' Hn) as Hrem.
+      pose proof (Z.quot_pos (- s) n Hs' Hn) as Hq.
+      rewrite Z.rem_opp_l' in Hrem. rewrite Z.quot_opp_l in Hq by lia.
+      set (q := Z.quot s n) in *. assert (q * n <= q) by nia. lia. }
+  rewrite wrap_small by lia. split; [reflexivity | exact Hq].
+Qed.
+
+(* the general statement: a panic exactly when the length is a multiple of 2^w *)
+Lemma mean_w_panics_iff w l : 0 < w ->
+  (mean_w w l = Panic <-> (Z.of_nat (length l)) mod 2 ^ w = 0).
+Proof.
+  intros Hw. unfold mean_w. set (n := Z.of_nat (length l)).
+  assert (Hp : 0 < 2 ^ w) by (apply Z.pow_pos_nonneg; lia).
+  pose proof (wrap_mod w n Hw) as Hm. pose proof (wrap_range w n Hw) as Hr.
+  assert (Hp1 : 0 < 2 ^ (w - 1)) by (apply Z.pow_pos_nonneg; lia).
+  assert (E : 2 ^ w = 2 * 2 ^ (w - 1)).
+  { replace w with (1 + (w - 1)) at 1 by lia. rewrite Z.pow_add_r by lia. reflexivity. }
+  destruct (Z.eqb_spec (wrap w n) 0) as [H0 | H0]; split; intros H; try reflexivity; try discriminate.
+  - rewrite <- Hm, H0. apply Z.mod_0_l. lia.
+  - exfalso. apply H0. rewrite <- Hm in H.
+    destruct (Z_le_gt_dec 0 (wrap w n)).
+    + rewrite Z.mod_small in H by lia. exact H.
+    + apply Z.mod_divide in H; [|lia]. destruct H as [q Hq].
+      rewrite E in Hq. set (P := 2 ^ (w - 1)) in *.
+      destruct (Z_le_gt_dec q (-1)); [assert (q * (2 * P) <= -1 * (2 * P)) by (apply Z.mul_le_mono_nonneg_r; lia) | assert (0 <= q * (2 * P)) by (apply Z.mul_nonneg_nonneg; lia)]; lia.
+Qed.
+
+(* ---------- Range: closed forms ---------- *)
+Lemma prog_in n s d x : In x (prog n s d) <-> exists k, (k < n)%nat /\ x = s + Z.of_nat k * d.
+Proof.
+  revert s; induction n as [|n IH]; intros s; cbn [prog].
+  - split; [intros [] | intros (k & Hk & _); lia].
+  - split.
+    + intros [<- | H]; [exists 0%nat; split; lia|].
+      apply IH in H as (k & Hk & ->). exists (S k). split; lia.
+    + intros (k & Hk & ->). destruct k as [|k]; [left; lia|].
+      right. apply IH. exists k. split; lia.
+Qed.
+
+(* the number of terms of the maximal progression from s by a >= 1 strictly
+   before e is ceil((e - s) / a) *)
+Lemma prog_count_unique n s a e : 1 <= a -> s < e ->
+  (forall x, In x (prog n s a) -> x < e) -> s + Z.of_nat n * a >= e ->
+  Z.of_nat n = (e - s + a - 1) / a.
+Proof.
+  intros Ha Hlt Hall Hmax.
+  assert (Hn : (0 < n)%nat) by (destruct n; [cbn in Hmax; lia | lia]).
+  assert (Hlast : s + (Z.of_nat n - 1) * a < e).
+  { apply Hall. apply prog_in. exists (n - 1)%nat. split; [lia|]. f_equal. f_equal. lia. }
+  apply Z.div_unique with (r := (e - s + a - 1) - a * Z.of_nat n); [left; nia | lia].
+Qed.
+
+Definition ceil_div (x a : Z) : Z := (x + a - 1) / a.
+
+Lemma range_closed_form args s st e :
+  range_args args = Some (s, st, e) -> ~ range_invalid args ->
+  range_go args =
+  Ok (if e >? 0
+      then (if s <? e then prog (Z.to_nat (ceil_div (e - s) (Z.abs st))) s (Z.abs st) else [])
+      else (if e <? s then prog (Z.to_nat (ceil_div (s - e) (Z.abs st))) s (- Z.abs st) else [])).
+Proof.
+  intros Hargs Hvalid.
+  assert (Hst : (e >? 0 = true -> s < e -> 1 <= Z.abs st) /\ (e >? 0 = false -> e < s -> 1 <= Z.abs st)).
+  { unfold range_args in Hargs.
+    destruct args as [|a [|b [|c [|d args]]]]; try discriminate; injection Hargs as <- <- <-; try lia.
+    assert (Hv : ~ ((a > c /\ c > 0) \/ b = 0 \/ (b < 0 /\ c > a))).
+    { intros H. apply Hvalid. right. exists a, b, c. auto. }
+    lia. }
+  destruct Hst as [Hup Hdown].
+  destruct (range_spec args s st e Hargs Hvalid) as (n & Hgo & Hshape & Hzero).
+  rewrite Hgo. f_equal. unfold ceil_div.
+  destruct (e >? 0) eqn:Epos.
+  - destruct Hshape as [Hall Hmax]. destruct (Z.ltb_spec s e) as [Hlt | Hge].
+    + specialize (Hup eq_refl Hlt).
+      rewrite <- (prog_count_unique n s (Z.abs st) e Hup Hlt Hall (Hmax Hlt)). now rewrite Nat2Z.id.
+    + assert (n = 0%nat) as -> by (apply Hzero; lia). reflexivity.
+  - destruct Hshape as [Hall Hmax]. destruct (Z.ltb_spec e s) as [Hlt | Hge].
+    + specialize (Hdown eq_refl Hlt).
+      (* mirror: negate everything *)
+      assert (Hall' : forall x, In x (prog n (- s) (Z.abs st)) -> x < - e).
+      { intros x Hx. apply prog_in in Hx as (k & Hk & ->).
+        assert (e < s + Z.of_nat k * - Z.abs st) by (apply Hall; apply prog_in; exists k; split; [lia|reflexivity]).
+        lia. }
+      assert (Hmax' : - s + Z.of_nat n * Z.abs st >= - e) by (specialize (Hmax Hlt); lia).
+      pose proof (prog_count_unique n (- s) (Z.abs st) (- e) Hdown ltac:(lia) Hall' Hmax') as Hc.
+      replace (- e - - s) with (s - e) in Hc by lia. rewrite <- Hc. now rewrite Nat2Z.id.
+    + assert (n = 0%nat) as -> by (apply Hzero; lia). reflexivity.
+Qed.
+
+(* the 0-, 1- and 2-argument variants, spelled out (none of them can fail) *)
+Lemma range_no_args : range_go [] = Ok [].
+Proof. reflexivity. Qed.
+
+Lemma range_one_arg e :
+  range_go [e] = Ok (if e >? 0 then prog (Z.to_nat e) 0 1 else prog (Z.to_nat (- e)) 0 (-1)).
+Proof.
+  assert (Hv : ~ range_invalid [e]).
+  { intros [H | (s & st & e' & H & _)]; [cbn in H; lia | discriminate]. }
+  rewrite (range_closed_form [e] 0 1 e eq_refl Hv). f_equal. unfold ceil_div.
+  change (Z.abs 1) with 1. change (- 1) with (-1).
+  destruct (e >? 0) eqn:Epos.
+  - replace (0 <? e) with true by lia. f_equal. rewrite Z.div_1_r. lia.
+  - destruct (Z.ltb_spec e 0).
+    + f_equal. rewrite Z.div_1_r. lia.
+    + replace (Z.to_nat (- e)) with 0%nat by lia. reflexivity.
+Qed.
+
+Lemma range_two_args s e :
+  range_go [s; e] = Ok (if e >? 0 then prog (Z.to_nat (e - s)) s 1 else prog (Z.to_nat (s - e)) s (-1)).
+Proof.
+  assert (Hv : ~ range_invalid [s; e]).
+  { intros [H | (s' & st & e' & H & _)]; [cbn in H; lia | discriminate]. }
+  rewrite (range_closed_form [s; e] s 1 e eq_refl Hv). f_equal. unfold ceil_div.
+  change (Z.abs 1) with 1. change (- 1) with (-1).
+  destruct (e >? 0) eqn:Epos.
+  - destruct (Z.ltb_spec s e).
+    + f_equal. rewrite Z.div_1_r. lia.
+    + replace (Z.to_nat (e - s)) with 0%nat by lia. reflexivity.
+  - destruct (Z.ltb_spec e s).
+    + f_equal. rewrite Z.div_1_r. lia.
+    + replace (Z.to_nat (s - e)) with 0%nat by lia. reflexivity.
+Qed.
+
+(* RangeRight lists the same progression from its last term backwards *)
+Lemma prog_snoc m a b : prog m a b ++ [a + Z.of_nat m * b] = prog (S m) a b.
+Proof.
+  revert a; induction m as [|m IH]; intros a.
+  - cbn [prog app]. f_equal. lia.
+  - change (prog (S m) a b) with (a :: prog m (a + b) b).
+    change (prog (S (S m)) a b) with (a :: prog (S m) (a + b) b).
+    cbn [app]. f_equal. rewrite <- IH. do 2 f_equal. lia.
+Qed.
+
+Lemma rev_prog n s d : rev (prog n s d) = prog n (s + (Z.of_nat n - 1) * d) (- d).
+Proof.
+  revert s; induction n as [|n IH]; intros s; [reflexivity|].
+  cbn [prog rev]. rewrite IH.
+  set (a := s + d + (Z.of_nat n - 1) * d).
+  replace [s] with [a + Z.of_nat n * - d] by (f_equal; unfold a; lia).
+  rewrite prog_snoc. cbn [prog]. f_equal; [|f_equal]; unfold a; rewrite Nat2Z.inj_succ; ring.
+Qed.
+
+(* ================================================================== *)
+(* Go's int is a w-bit type (w = 64): the wrapped versions              *)
+
+Definition fits (w z : Z) : Prop := - 2 ^ (w - 1) <= z < 2 ^ (w - 1).
+
+Lemma pow_half w : 0 < w -> 2 ^ w = 2 * 2 ^ (w - 1) /\ 0 < 2 ^ (w - 1).
+Proof.
+  intros Hw. split.
+  - replace w with (1 + (w - 1)) at 1 by lia. rewrite Z.pow_add_r by lia. reflexivity.
+  - apply Z.pow_pos_nonneg; lia.
+Qed.
+
+(* two values of the type that are congruent modulo 2^w are equal *)
+Lemma fits_cong_eq w a b : 0 < w -> fits w a -> fits w b -> a mod 2 ^ w = b mod 2 ^ w -> a = b.
+Proof.
+  intros Hw Ha Hb H. unfold fits in *. destruct (pow_half w Hw) as [E Hp].
+  assert (Hd : (a - b) mod 2 ^ w = 0).
+  { rewrite Zminus_mod, H, Z.sub_diag. apply Z.mod_0_l. lia. }
+  apply Z.mod_divide in Hd; [|lia]. destruct Hd as [q Hq].
+  assert (q = 0) by nia. subst q. lia.
+Qed.
+
+(* Sum: intermediate overflows cancel — whenever the mathematical sum fits the
+   type, the wrapped loop returns it *)
+Lemma sum_w_exact w l : 0 < w -> fits w (sum l) -> sum_w w l = sum l.
+Proof.
+  intros Hw Hf. destruct (sum_w_spec w l Hw) as [Hm Hr].
+  apply (fits_cong_eq w); auto.
+Qed.
+
+Lemma sum_by_w_map w f l : sum_by_w w f l = sum_w w (map f l).
+Proof.
+  unfold sum_by_w, sum_w. generalize 0. induction l as [|x l IH]; intros a; cbn [fold_left map]; auto.
+Qed.
+
+(* Abs *)
+Lemma abs_w_fits w x : 0 < w -> fits w x -> fits w (abs_w w x).
+Proof.
+  intros Hw Hx. unfold abs_w. destruct (x <? 0); [apply wrap_range; lia | exact Hx].
+Qed.
+
+(* Nth: the wrap-around never shows — for EVERY index of the type, the most
+   negative one included, the w-bit code answers what the unbounded reading
+   answers *)
+Lemma nth_w_eq w l n : 0 < w -> fits w n -> Z.of_nat (length l) < 2 ^ (w - 1) ->
+  nth_w w l n = nth_go l n.
+Proof.
+  intros Hw Hn Hlen. unfold fits in Hn. destruct (pow_half w Hw) as [E Hp].
+  unfold nth_w, nth_go, enclose_w, enclose. set (len := Z.of_nat (length l)) in *.
+  assert (Hl0 : 0 <= len) by (unfold len; lia).
+  destruct (Z.eq_dec n (- 2 ^ (w - 1))) as [Hmin | Hnmin].
+  - (* the most negative index: Abs returns it unchanged; len - it wraps to a negative number *)
+    destruct (abs_w_spec w n Hw Hn) as [_ Ha]. rewrite (Ha Hmin).
+    assert (Hwr : wrap w (len - n) = len - 2 ^ (w - 1)).
+    { unfold wrap. subst n. replace (len - - 2 ^ (w - 1) + 2 ^ (w - 1)) with (len + 1 * 2 ^ w) by lia.
+      rewrite Z.mod_add by lia. rewrite Z.mod_small by lia. lia. }
+    rewrite Hwr.
+    replace (n <? 0) with true by lia. replace (len - 2 ^ (w - 1) <? 0) with true by lia.
+    replace (len - Z.abs n <? 0) with true by lia.
+    rewrite !andb_true_r, !orb_true_r. reflexivity.
+  - destruct (abs_w_spec w n Hw Hn) as [Ha _]. rewrite (Ha Hnmin).
+    rewrite (wrap_small w (len - Z.abs n)) by lia.
+    destruct (((n >=? 0) && (n >? len - 1)) || ((n <? 0) && (len - Z.abs n <? 0))) eqn:Eerr; [reflexivity|].
+    set (idx := if (Z.abs n >=? 0) && (Z.abs n <=? len) && (n >=? 0) then n else len - Z.abs n).
+    assert (Hidx : idx < len).
+    { unfold idx. destruct ((Z.abs n >=? 0) && (Z.abs n <=? len) && (n >=? 0)) eqn:Ee; lia. }
+    destruct (idx <? 0) eqn:Eneg; cbn [orb]; [reflexivity|].
+    replace (idx >=? len) with false by lia. reflexivity.
+Qed.
+
+Lemma nth_w_never_panics w l n : 0 < w -> fits w n -> Z.of_nat (length l) < 2 ^ (w - 1) ->
+  nth_w w l n <> Panic.
+Proof. intros Hw Hn Hl. rewrite nth_w_eq by assumption. apply nth_go_never_panics. Qed.
+
+(* Range *)
+Lemma wrapf_small w z : fits w z -> wrapf w z = z.
+Proof. unfold fits, wrapf. intros H. cbn zeta. replace ((- 2 ^ (w - 1) <=? z) && (z <? 2 ^ (w - 1))) with true by lia. reflexivity. Qed.
+
+Lemma wrapf_eq w z : 0 < w -> wrapf w z = wrap w z.
+Proof.
+  intros Hw. unfold wrapf. cbn zeta.
+  destruct ((- 2 ^ (w - 1) <=? z) && (z <? 2 ^ (w - 1))) eqn:E; [|reflexivity].
+  symmetry. apply wrap_small; lia.
+Qed.
+
+Lemma range_right_w_rev w cap args :
+  range_right_w w cap args =
+  match range_w w cap args with Ok l => Ok (rev l) | Err k => Err k | Panic => Panic end.
+Proof. unfold range_right_w, rev_res. destruct (range_w w cap args); auto. now rewrite rev_alt. Qed.
+
+Lemma range_right_u_rev w cap args :
+  range_right_u w cap args =
+  match range_u w cap args with Ok l => Ok (rev l) | Err k => Err k | Panic => Panic end.
+Proof. unfold range_right_u, rev_res. destruct (range_u w cap args); auto. now rewrite rev_alt. Qed.
+
+(* The repaired loops, for any wrap-around [wr] of a type with values lo..hi.
+   What the loop needs of [wr] is stated as a hypothesis about one step: if the
+   next term fits, [wr] returns it; if not, the wrapped value lies on the wrong
+   side of the counter — which is exactly what the break test looks at. *)
+Lemma range_up_g_prog wr lo hi cap n i st e :
+  1 <= st -> e <= hi + 1 ->
+  (forall j, lo <= j <= hi -> (j + st <= hi -> wr (j + st) = j + st) /\ (hi < j + st -> wr (j + st) < j)) ->
+  lo <= i <= hi -> (n <= cap)%nat ->
+  (forall x, In x (prog n i st) -> x < e) -> i + Z.of_nat n * st >= e ->
+  range_up_g wr cap i st e = Some (prog n i st).
+Proof.
+  intros Hst He Hstep. revert cap i. induction n as [|n IH]; intros cap i Hi Hcap Hall Hmax.
+  - cbn in Hmax. destruct cap; cbn [range_up_g prog]; replace (i <? e) with false by lia; reflexivity.
+  - destruct cap as [|cap]; [lia|]. cbn [range_up_g prog].
+    assert (Hie : i < e) by (apply Hall; now left).
+    replace (i <? e) with true by lia.
+    destruct (Hstep i Hi) as [Hfit Hover].
+    destruct (Z_le_gt_dec (i + st) hi) as [Hle | Hgt].
+    + rewrite (Hfit Hle). replace (i + st <? i) with false by lia.
+      rewrite (IH cap (i + st)); [reflexivity | lia | lia | | lia].
+      intros x Hx. apply Hall. now right.
+    + specialize (Hover ltac:(lia)). replace (wr (i + st) <? i) with true by lia.
+      (* the next term does not fit, so it is not below e: the progression ends here *)
+      destruct n as [|n]; [reflexivity|].
+      exfalso. assert (i + st < e) by (apply Hall; right; now left). lia.
+Qed.
+
+Lemma range_down_g_prog wr lo hi cap n i a A e :
+  1 <= A -> lo - 1 <= e ->
+  (forall j, lo <= j <= hi -> (lo <= j - A -> wr (j - a) = j - A) /\ (j - A < lo -> wr (j - a) > j)) ->
+  lo <= i <= hi -> (n <= cap)%nat ->
+  (forall x, In x (prog n i (- A)) -> e < x) -> i - Z.of_nat n * A <= e ->
+  range_down_g wr cap i a e = Some (prog n i (- A)).
+Proof.
+  intros Hst He Hstep. revert cap i. induction n as [|n IH]; intros cap i Hi Hcap Hall Hmax.
+  - cbn in Hmax. destruct cap; cbn [range_down_g prog]; replace (e <? i) with false by lia; reflexivity.
+  - destruct cap as [|cap]; [lia|]. cbn [range_down_g prog].
+    assert (Hie : e < i) by (apply Hall; now left).
+    replace (e <? i) with true by lia.
+    destruct (Hstep i Hi) as [Hfit Hunder].
+    replace (i + - A) with (i - A) by lia.
+    destruct (Z_le_gt_dec lo (i - A)) as [Hle | Hgt].
+    + rewrite (Hfit Hle). replace (i - A >? i) with false by lia.
+      rewrite (IH cap (i - A)); [reflexivity | lia | lia | | lia].
+      intros x Hx. apply Hall. right. now replace (i + - A) with (i - A) by lia.
+    + specialize (Hunder ltac:(lia)). replace (wr (i - a) >? i) with true by lia.
+      destruct n as [|n]; [reflexivity|].
+      exfalso. assert (e < i + - A) by (apply Hall; right; now left). lia.
+Qed.
+
+(* ---- signed w-bit ints ---- *)
+Lemma wrapf_over w z : 0 < w -> 2 ^ (w - 1) <= z < 3 * 2 ^ (w - 1) -> wrapf w z = z - 2 ^ w.
+Proof.
+  intros Hw Hz. rewrite wrapf_eq by exact Hw. unfold wrap. destruct (pow_half w Hw) as [E Hp].
+  replace (z + 2 ^ (w - 1)) with ((z - 2 ^ w + 2 ^ (w - 1)) + 1 * 2 ^ w) by lia.
+  rewrite Z.mod_add by lia. rewrite Z.mod_small by lia. lia.
+Qed.
+Lemma wrapf_under w z : 0 < w -> - 3 * 2 ^ (w - 1) <= z < - 2 ^ (w - 1) -> wrapf w z = z + 2 ^ w.
+Proof.
+  intros Hw Hz. rewrite wrapf_eq by exact Hw. unfold wrap. destruct (pow_half w Hw) as [E Hp].
+  replace (z + 2 ^ (w - 1)) with ((z + 2 ^ w + 2 ^ (w - 1)) + (-1) * 2 ^ w) by lia.
+  rewrite Z.mod_add by lia. rewrite Z.mod_small by lia. lia.
+Qed.
+
+(* one ascending step in a signed type *)
+Lemma signed_up_step w st : 0 < w -> 1 <= st -> fits w st ->
+  forall j, - 2 ^ (w - 1) <= j <= 2 ^ (w - 1) - 1 ->
+    (j + st <= 2 ^ (w - 1) - 1 -> wrapf w (j + st) = j + st) /\
+    (2 ^ (w - 1) - 1 < j + st -> wrapf w (j + st) < j).
+Proof.
+  intros Hw H1 Hst j Hj. unfold fits in Hst. destruct (pow_half w Hw) as [E Hp]. split; intros H.
+  - apply wrapf_small. unfold fits. lia.
+  - rewrite wrapf_over by lia. lia.
+Qed.
+
+(* one descending step: [a] is what Abs(step) returns in the type, [A] the true
+   |step|.  They differ for the most negative step only (a = step = -A): then
+   i - a = i + A, which wraps to i - A — the true next term — when that fits,
+   and is a value above i when it does not: the break test is right there too. *)
+Lemma signed_down_step w st : 0 < w -> st <> 0 -> fits w st ->
+  forall j, - 2 ^ (w - 1) <= j <= 2 ^ (w - 1) - 1 ->
+    (- 2 ^ (w - 1) <= j - Z.abs st -> wrapf w (j - abs_w w st) = j - Z.abs st) /\
+    (j - Z.abs st < - 2 ^ (w - 1) -> wrapf w (j - abs_w w st) > j).
+Proof.
+  intros Hw H0 Hst j Hj. pose proof Hst as Hst'. unfold fits in Hst'. destruct (pow_half w Hw) as [E Hp].
+  destruct (abs_w_spec w st Hw Hst) as [Hnorm Hmin].
+  destruct (Z.eq_dec st (- 2 ^ (w - 1))) as [Em | Em].
+  - rewrite (Hmin Em). subst st. replace (Z.abs (- 2 ^ (w - 1))) with (2 ^ (w - 1)) by lia.
+    replace (j - - 2 ^ (w - 1)) with (j + 2 ^ (w - 1)) by lia. split; intros H.
+    + rewrite wrapf_over by lia. lia.
+    + rewrite wrapf_small by (unfold fits; lia). lia.
+  - rewrite (Hnorm Em). split; intros H.
+    + apply wrapf_small. unfold fits. lia.
+    + rewrite wrapf_under by lia. lia.
+Qed.
+
+(* After the repair: for EVERY start / step / end of the type — the limits and
+   the most negative step included — the bounded loop returns the progression of
+   the unbounded reading (when it has at most cap terms). *)
+Lemma range_w_eq w cap args l :
+  1 < w -> Forall (fits w) args ->
+  range_go args = Ok l -> (length l <= cap)%nat ->
+  range_w w cap args = Ok l.
+Proof.
+  intros Hw1 Hfits Hgo Hlen. assert (Hw : 0 < w) by lia.
+  destruct (pow_half w Hw) as [E Hp].
+  assert (Hp2 : 2 <= 2 ^ (w - 1)).
+  { replace (w - 1) with (1 + (w - 2)) by lia. rewrite Z.pow_add_r by lia.
+    assert (0 < 2 ^ (w - 2)) by (apply Z.pow_pos_nonneg; lia). lia. }
+  assert (Hvalid : ~ range_invalid args).
+  { intros Hi. apply range_errors in Hi as (k & Hk). congruence. }
+  assert (Hargs : exists s st e, range_args args = Some (s, st, e) /\ fits w s /\ fits w st /\ fits w e).
+  { unfold fits in *. destruct args as [|a [|b [|c [|d args]]]]; cbn [range_args].
+    - exists 0, 0, 0. repeat split; lia.
+    - inversion Hfits; subst. exists 0, 1, a. repeat split; lia.
+    - inversion Hfits as [|? ? Ha Hr]; subst. inversion Hr; subst. exists a, 1, b. repeat split; lia.
+    - inversion Hfits as [|? ? Ha Hr]; subst. inversion Hr as [|? ? Hb Hr2]; subst. inversion Hr2; subst.
+      exists a, b, c. repeat split; lia.
+    - exfalso. apply Hvalid. left. cbn. lia. }
+  destruct Hargs as (s & st & e & Hargs & Hs & Hst & He).
+  destruct (range_spec args s st e Hargs Hvalid) as (n & Hgo' & Hshape & Hzero).
+  rewrite Hgo in Hgo'. injection Hgo' as ->. rewrite prog_length in Hlen.
+  unfold fits in Hs, He.
+  assert (Hgo_w : forall s0 st0 e0, s0 = s -> st0 = st -> e0 = e ->
+            (e >? 0 = true -> s < e -> 1 <= st) -> (e >? 0 = false -> e < s -> st <> 0) ->
+            match (if e0 >? 0 then range_up_g (wrapf w) cap s0 st0 e0
+                   else range_down_g (wrapf w) cap s0 (abs_w w st0) e0) with
+            | Some l => Ok l | None => @Panic (list Z) end
+            = Ok (prog n s (if e >? 0 then Z.abs st else - Z.abs st))).
+  { intros s0 st0 e0 -> -> -> Hup Hdown. destruct (e >? 0) eqn:Epos.
+    - destruct Hshape as [Hall Hmax]. destruct (Z_lt_le_dec s e) as [Hlt | Hge].
+      + specialize (Hup eq_refl Hlt). replace (Z.abs st) with st in * by lia.
+        rewrite (range_up_g_prog (wrapf w) (- 2 ^ (w - 1)) (2 ^ (w - 1) - 1) cap n s st e); auto; try lia.
+        apply signed_up_step; auto.
+      + assert (n = 0%nat) as -> by (apply Hzero; lia).
+        destruct cap; cbn [range_up_g prog]; replace (s <? e) with false by lia; reflexivity.
+    - destruct Hshape as [Hall Hmax]. destruct (Z_lt_le_dec e s) as [Hlt | Hge].
+      + specialize (Hdown eq_refl Hlt).
+        rewrite (range_down_g_prog (wrapf w) (- 2 ^ (w - 1)) (2 ^ (w - 1) - 1) cap n s (abs_w w st) (Z.abs st) e);
+          auto; try lia.
+        apply signed_down_step; auto.
+      + assert (n = 0%nat) as -> by (apply Hzero; lia).
+        destruct cap; cbn [range_down_g prog]; replace (e <? s) with false by lia; reflexivity. }
+  unfold range_args in Hargs. unfold range_w, range_g.
+  destruct args as [|a [|b [|c [|d args]]]]; try discriminate; injection Hargs as <- <- <-.
+  - apply Hgo_w; auto; intros; lia.
+  - apply Hgo_w; auto; intros; lia.
+  - apply Hgo_w; auto; intros; lia.
+  - assert (Hv : ~ ((a > c /\ c > 0) \/ b = 0 \/ (b < 0 /\ c > a))).
+    { intros H. apply Hvalid. right. exists a, b, c. auto. }
+    replace ((a >? c) && (c >? 0)) with false by lia.
+    replace (b =? 0) with false by lia.
+    replace ((b <? 0) && (c >? a)) with false by lia.
+    apply Hgo_w; auto; intros; lia.
+Qed.
+
+(* the validation does no arithmetic: the same argument shapes are rejected *)
+Lemma range_g_err wr absf cap args k : range_go args = Err k -> range_g wr absf cap args = Err k.
+Proof.
+  unfold range_go, range_g.
+  destruct args as [|a [|b [|c [|d args]]]]; try (intros H; exact H);
+    repeat match goal with |- context [if ?b then _ else _] => destruct b end; try discriminate; auto.
+Qed.
+Lemma range_w_err w cap args k : range_go args = Err k -> range_w w cap args = Err k.
+Proof. apply range_g_err. Qed.
+
+(* ---- unsigned w-bit ints ---- *)
+Definition ufits (w z : Z) : Prop := 0 <= z < 2 ^ w.
+
+Lemma range_u_eq w cap args l :
+  0 < w -> Forall (ufits w) args ->
+  range_go args = Ok l -> (length l <= cap)%nat ->
+  range_u w cap args = Ok l.
+Proof.
+  intros Hw Hfits Hgo Hlen.
+  assert (HM : 2 <= 2 ^ w).
+  { replace w with (1 + (w - 1)) by lia. rewrite Z.pow_add_r by lia.
+    assert (0 < 2 ^ (w - 1)) by (apply Z.pow_pos_nonneg; lia). lia. }
+  set (M := 2 ^ w) in *.
+  assert (Hvalid : ~ range_invalid args).
+  { intros Hi. apply range_errors in Hi as (k & Hk). congruence. }
+  assert (Hargs : exists s st e, range_args args = Some (s, st, e) /\ ufits w s /\ ufits w st /\ ufits w e).
+  { unfold ufits in *. fold M in Hfits |- *. destruct args as [|a [|b [|c [|d args]]]]; cbn [range_args].
+    - exists 0, 0, 0. repeat split; lia.
+    - inversion Hfits; subst. exists 0, 1, a. repeat split; lia.
+    - inversion Hfits as [|? ? Ha Hr]; subst. inversion Hr; subst. exists a, 1, b. repeat split; lia.
+    - inversion Hfits as [|? ? Ha Hr]; subst. inversion Hr as [|? ? Hb Hr2]; subst. inversion Hr2; subst.
+      exists a, b, c. repeat split; lia.
+    - exfalso. apply Hvalid. left. cbn. lia. }
+  destruct Hargs as (s & st & e & Hargs & Hs & Hst & He). unfold ufits in Hs, Hst, He. fold M in Hs, Hst, He.
+  destruct (range_spec args s st e Hargs Hvalid) as (n & Hgo' & Hshape & Hzero).
+  rewrite Hgo in Hgo'. injection Hgo' as ->. rewrite prog_length in Hlen.
+  assert (Hup_step : 1 <= st -> forall j, 0 <= j <= M - 1 ->
+            (j + st <= M - 1 -> (j + st) mod M = j + st) /\ (M - 1 < j + st -> (j + st) mod M < j)).
+  { intros H1 j Hj. split; intros H.
+    - apply Z.mod_small. lia.
+    - replace (j + st) with ((j + st - M) + 1 * M) by lia. rewrite Z.mod_add by lia. rewrite Z.mod_small by lia. lia. }
+  assert (Hdown_step : 1 <= st -> forall j, 0 <= j <= M - 1 ->
+            (0 <= j - st -> (j - st) mod M = j - st) /\ (j - st < 0 -> (j - st) mod M > j)).
+  { intros H1 j Hj. split; intros H.
+    - apply Z.mod_small. lia.
+    - replace (j - st) with ((j - st + M) + (-1) * M) by lia. rewrite Z.mod_add by lia. rewrite Z.mod_small by lia. lia. }
+  assert (Hgo_u : forall s0 st0 e0, s0 = s -> st0 = st -> e0 = e ->
+            (e >? 0 = true -> s < e -> 1 <= st) -> (e >? 0 = false -> e < s -> 1 <= st) ->
+            match (if e0 >? 0 then range_up_g (fun z => z mod M) cap s0 st0 e0
+                   else range_down_g (fun z => z mod M) cap s0 (if st0 <? 0 then (- st0) mod M else st0) e0) with
+            | Some l => Ok l | None => @Panic (list Z) end
+            = Ok (prog n s (if e >? 0 then Z.abs st else - Z.abs st))).
+  { intros s0 st0 e0 -> -> -> Hup Hdown. replace (st <? 0) with false by lia.
+    replace (Z.abs st) with st in * by lia. destruct (e >? 0) eqn:Epos.
+    - destruct Hshape as [Hall Hmax]. destruct (Z_lt_le_dec s e) as [Hlt | Hge].
+      + specialize (Hup eq_refl Hlt).
+        rewrite (range_up_g_prog (fun z => z mod M) 0 (M - 1) cap n s st e); auto; lia.
+      + assert (n = 0%nat) as -> by (apply Hzero; lia).
+        destruct cap; cbn [range_up_g prog]; replace (s <? e) with false by lia; reflexivity.
+    - destruct Hshape as [Hall Hmax]. destruct (Z_lt_le_dec e s) as [Hlt | Hge].
+      + specialize (Hdown eq_refl Hlt).
+        rewrite (range_down_g_prog (fun z => z mod M) 0 (M - 1) cap n s st st e); auto; lia.
+      + assert (n = 0%nat) as -> by (apply Hzero; lia).
+        destruct cap; cbn [range_down_g prog]; replace (e <? s) with false by lia; reflexivity. }
+  unfold range_args in Hargs. unfold range_u, range_g. fold M.
+  destruct args as [|a [|b [|c [|d args]]]]; try discriminate; injection Hargs as <- <- <-.
+  - apply Hgo_u; auto; intros; lia.
+  - apply Hgo_u; auto; intros; lia.
+  - apply Hgo_u; auto; intros; lia.
+  - assert (Hv : ~ ((a > c /\ c > 0) \/ b = 0 \/ (b < 0 /\ c > a))).
+    { intros H. apply Hvalid. right. exists a, b, c. auto. }
+    replace ((a >? c) && (c >? 0)) with false by lia.
+    replace (b =? 0) with false by lia.
+    replace ((b <? 0) && (c >? a)) with false by lia.
+    apply Hgo_u; auto; intros; lia.
 Qed.
